@@ -78,6 +78,8 @@ fn gamma(a: f64) -> f64 {
     }
 }
 
+const ILOG_MAX_ITERATIONS: f64 = 64.0;
+
 pub fn eval(expr: Node) -> Result<f64, Box<dyn error::Error>> {
     use self::Node::*;
     match expr {
@@ -95,6 +97,8 @@ pub fn eval(expr: Node) -> Result<f64, Box<dyn error::Error>> {
             if sub_result >= 0.0 {
                 if (sub_result % 1.0) > 0.0 {
                     Ok(gamma(sub_result + 1.0))
+                } else if sub_result > 170.0 {
+                    Ok(f64::INFINITY)
                 } else {
                     let mut factorial_result = 1.0;
                     for i in 2..=(sub_result as usize) {
@@ -114,6 +118,9 @@ pub fn eval(expr: Node) -> Result<f64, Box<dyn error::Error>> {
             if sub_expr < -min_one.exp() {
                 return Err("The Lambert W function is not defined for {}.".into());
             }
+            if sub_expr == f64::INFINITY {
+                return Ok(f64::INFINITY);
+            }
             let iterations = (4).max((sub_expr.log10() / 3.0).ceil() as i32);
             let mut w: f64 = 0.0;
             for _ in 0..iterations {
@@ -128,6 +135,9 @@ pub fn eval(expr: Node) -> Result<f64, Box<dyn error::Error>> {
             let b = eval(*expr2)?;
             let mut x: f64 = 0.0;
             while n > 1.0 {
+                if x >= ILOG_MAX_ITERATIONS {
+                    return Err("The iterated logarithm does not converge for this base".into());
+                }
                 x += 1.0;
                 n = (n.log10() / b.log10()).floor();
             }
